@@ -120,7 +120,8 @@ fn scenario_steps(n: u64) -> Vec<Step> {
         // a backend is removed and added again while its probe is in flight; RemoveCluster with a probe in flight
         _ => vec![Mode(1, hckit::M_STALL), Cmd("AddBackend", None, "b1", 1), Cmd("AddBackend", None, "b2", 2),
                   Cmd("SetHealthCheck", Some((1, 2, 1, 1, 0)), "", 0), Sleep(300), Cmd("RemoveBackend", None, "b1", 1),
-                  Cmd("AddBackend", None, "b1", 1), Sleep(2600), Reqs(6), Sleep(1200), Cmd("RemoveCluster", None, "", 0),
+                  Cmd("AddBackend", None, "b1", 1), Sleep(2600), Reqs(6), Sleep(1200), Reqs(2), Sleep(2400),
+                  Cmd("RemoveCluster", None, "", 0),
                   Cmd("AddClusterNoHc", None, "", 0), Sleep(2500), Reqs(4)],
     }
 }
